@@ -1140,6 +1140,7 @@ def map_lookup(ex, st, m, key, val_ty, hint='m'):
         fac = getattr(ex, 'map_value_factory', None)
         if fac is not None:
             v = fac(ex, st, val_ty, key)
+            st.env['inputs'] = dict(st.env.get('inputs', {}), existing_entry=p)
         else:
             v = ex.fresh(st, val_ty, hint + '_val') if val_ty else Opaque('mapval')
         m = m.with_entry(key, p, v)
